@@ -17,6 +17,10 @@ def protocol_units(tier):
         for case in range(12):
             out.append(("script", SIDECARS, H, "send_request_segment", f"{kind}.send_request#{case}", PROPS, tier,
                         {"kind": kind, "case": case}))
+        for entry in ("stale_loop", "other"):
+            for case in range(0, 12, 2):
+                out.append(("script", SIDECARS, H, "send_request_segment", f"{kind}.send_request@{entry}#{case}", PROPS,
+                            tier, {"kind": kind, "case": case, "entry": entry}))
         out.append(("script", SIDECARS, H, "execute_segment", f"{kind}.execute", PROPS, tier, {"kind": kind}))
         out.append(("script", SIDECARS, H, "close_segment", f"{kind}.close", PROPS, tier, {"kind": kind}))
     return out
